@@ -13,9 +13,11 @@ func makeShape(shape []vector2.Float64, path []vector3.Float64, close bool) mode
 		panic("Can not extrude a path with less than 2 points")
 	}
 
-	vertices := make([]vector3.Float64, 0, len(path)*len(shape))
-	normals := make([]vector3.Float64, 0, len(path)*len(shape))
-	for i, p := range path {
+	// Frame of every ring: the direction the ring is perpendicular to and one
+	// axis inside the ring plane (the normal of the plane the path bends in).
+	dirs := make([]vector3.Float64, len(path))
+	pers := make([]vector3.Float64, len(path))
+	for i := range path {
 		var dir vector3.Float64
 		var per vector3.Float64
 
@@ -37,7 +39,47 @@ func makeShape(shape []vector2.Float64, path []vector3.Float64, close bool) mode
 			per = path[i+1].Sub(path[i]).Cross(path[i].Sub(path[i-1]))
 		}
 
-		verts, norms := ProjectFace(p, dir.Normalized(), per.Normalized(), shape)
+		dirs[i] = dir
+		pers[i] = per
+	}
+
+	// A ring on a repeated point or on a reversal has no direction of its
+	// own, a ring between two collinear segments bends in no plane: borrow the
+	// tangent the other extrusions use, and the bend axis of the nearest ring
+	// that has one (made perpendicular to the direction), so that straight
+	// paths and straight runs do not end up as NaN.
+	fallbackDirs := tangents(path)
+	hasPer := make([]bool, len(path))
+	for i := range path {
+		if dirs[i].LengthSquared() == 0 {
+			dirs[i] = fallbackDirs[i]
+		}
+		hasPer[i] = pers[i].LengthSquared() > 0
+	}
+	for i := range path {
+		if hasPer[i] {
+			continue
+		}
+		per := vector3.Zero[float64]()
+		for d := 1; d < len(path) && per.LengthSquared() == 0; d++ {
+			if i-d >= 0 && hasPer[i-d] {
+				per = pers[i-d].Normalized()
+			} else if i+d < len(path) && hasPer[i+d] {
+				per = pers[i+d].Normalized()
+			}
+		}
+		n := dirs[i].Normalized()
+		per = per.Sub(n.Scale(per.Dot(n)))
+		if per.LengthSquared() < 1e-12 {
+			per = dirs[i].Perpendicular()
+		}
+		pers[i] = per
+	}
+
+	vertices := make([]vector3.Float64, 0, len(path)*len(shape))
+	normals := make([]vector3.Float64, 0, len(path)*len(shape))
+	for i, p := range path {
+		verts, norms := ProjectFace(p, dirs[i].Normalized(), pers[i].Normalized(), shape)
 		vertices = append(vertices, verts...)
 		normals = append(normals, norms...)
 	}
